@@ -100,6 +100,7 @@ func c04canonical(rng *core.Rng, n int) []c04session {
 		{Name: "extended-batch", Msgs: cat([][]byte{start}, ext("select $1", [][]byte{[]byte("41")}), ext("select $2 $1", [][]byte{nil, []byte("x")}), [][]byte{pg.Terminate()})},
 		{Name: "error-batch", Msgs: cat([][]byte{start, pg.Parse("", "fail here", nil), pg.Bind("", "", nil, nil, nil), pg.Execute("", 0), pg.Sync(), pg.Bind("", "nosuch", nil, nil, nil), pg.Sync(), pg.Query("fail again"), pg.Terminate()})},
 		{Name: "copy-binary", Msgs: cat([][]byte{start, pg.Query("copyb in"), pg.CopyData(bin[:25]), pg.CopyData(bin[25:]), pg.CopyDone(), pg.Query("select 1"), pg.Terminate()})},
+		{Name: "copy-binary-data-after-trailer", Msgs: cat([][]byte{start, pg.Query("copyb in"), pg.CopyData(bin), pg.CopyData([]byte("late data after the trailer")), pg.CopyData(nil), pg.CopyDone(), pg.Query("select 1"), pg.Terminate()})},
 		{Name: "copy-text-abort", Msgs: cat([][]byte{start, pg.Query("copyt in"), pg.CopyData([]byte("a\t1\n")), pg.Flush(), pg.CopyFail("stop"), pg.CopyData([]byte("late")), pg.Query("select 1"), pg.Terminate()})},
 		{Name: "oversized", Msgs: cat([][]byte{start, pg.Raw('Q', bytes.Repeat([]byte{'o'}, c04L+100)), pg.Query("select 1"), pg.Raw('P', bytes.Repeat([]byte{'o'}, 2*c04L+1)), pg.Sync(), pg.Terminate()})},
 		{Name: "ssl-refused", Msgs: cat([][]byte{pg.SSLRequest(), start, pg.Query("select 1"), pg.Terminate()})},
@@ -137,7 +138,7 @@ func (ch c04) Run(c *core.Ctx) {
 	tr.WatchdogTimeout = 30 * time.Second
 	envs := c04envs{plain: hs.Start(hs.Parse, wire.MessageBufferSize(c04L)), auth: hs.Start(hs.Parse, wire.MessageBufferSize(c04L), wire.SessionAuthStrategy(wire.ClearTextPassword(c04validator)))}
 	nb := ch.Batches(c.Tier)
-	ncanon, nmut := 10, 2500
+	ncanon, nmut := 11, 2500
 	if c.Tier == "thorough" {
 		ncanon, nmut = 40, 60000
 	}
@@ -205,6 +206,7 @@ func (ch c04) Run(c *core.Ctx) {
 				} else {
 					c.Inconclusive("watchdog fired without library-blocked goroutine (" + what + ")")
 				}
+				c.Finish()
 				return false
 			}
 			st := conn.Stats()
@@ -312,6 +314,7 @@ func (ch c04) Run(c *core.Ctx) {
 			} else {
 				c.Inconclusive("watchdog fired without library-blocked goroutine (mutation)")
 			}
+			c.Finish()
 			break
 		}
 		c.Count("server_close_observed", 1)
